@@ -60,6 +60,27 @@ def api_functions(ctext):
         if depth == 0: stmt += ch
     return sorted(names)
 
+def strip_comments(t):
+    return re.sub(r'/\*.*?\*/|//[^\n]*', ' ', t, flags=re.S)
+
+def header_definitions(ctext):
+    """(name, is_static) of every function defined (with a body) at file scope of the preprocessed C view"""
+    out = []; depth = 0; stmt = ''
+    for ch in ctext:
+        if ch == '{':
+            if depth == 0:
+                s = stmt.strip()
+                if s.endswith(')') and not re.match(r'^(typedef|struct|union|enum)\b', s) and '=' not in s:
+                    m = re.search(r'\b(\w+)\s*\([^()]*(\([^()]*\)[^()]*)*\)$', s)
+                    if m and m.group(1) not in KEYWORDS: out.append((m.group(1), bool(re.search(r'\bstatic\b', s))))
+            depth += 1
+        elif ch == '}':
+            depth -= 1
+            if depth == 0: stmt = ''
+        elif ch == ';' and depth == 0: stmt = ''
+        elif depth == 0: stmt += ch
+    return out
+
 def coq_str(s): return '"%s"%%string' % s
 
 def run(ctx):
@@ -126,7 +147,8 @@ def _run(ctx, work):
         bdir = vlib.build_lib(variant)
         for be in vlib.BACKENDS:
             rc, out = sh(['nm', '-D', '--defined-only', os.path.join(bdir, 'libtfhe', 'libtfhe-%s.so' % be)])
-            libs['%s-%s' % (be, variant)] = sorted({l.split()[2] for l in out.splitlines() if len(l.split()) == 3 and l.split()[1] == 'T' and not l.split()[2].startswith('_Z')})
+            # strong (T) and weak (W) function definitions: both resolve a reference from a client
+            libs['%s-%s' % (be, variant)] = sorted({l.split()[2] for l in out.splitlines() if len(l.split()) == 3 and l.split()[1] in ('T', 'W') and not l.split()[2].startswith('_Z')})
     # 5. assembly displacements vs the C++ structure of the spqlios back-end
     asm = {}
     spq = os.path.join(vlib.REPO, 'src', 'libtfhe', 'fft_processors', 'spqlios')
@@ -150,6 +172,24 @@ def _run(ctx, work):
     dead = [f for f in declared if f not in anywhere]
     api = [f for f in declared if f in anywhere]
     ctx.cov['declared_but_defined_in_no_variant'] = dead
+    # a prototype no variant exports must really be dead: no definition anywhere in the sources (comments stripped).  A function
+    # that is defined - in a .cpp or as an inline function of a header - but exported by no variant cannot be called from C
+    srcs = []
+    for root in (os.path.join(vlib.REPO, 'src', 'libtfhe'), INC):
+        for dp, dn, fn in os.walk(root):
+            srcs += [os.path.join(dp, f) for f in fn if f.endswith(('.cpp', '.h', '.c', '.hpp'))]
+    code = {f: strip_comments(open(f, errors='replace').read()) for f in srcs}
+    for f in dead:
+        ctx.count(('dead', f))
+        rx = re.compile(r'\b%s\s*\([^;{}]*\)\s*\{' % re.escape(f))
+        where = [os.path.relpath(q, vlib.REPO) for q, t in code.items() if rx.search(t)]
+        if where:
+            ctx.report('defined-not-exported-' + f, 'public API function %s is declared in the public headers and defined in %s, but none of the ten libraries exports it: a C client cannot call it' % (f, ', '.join(where)), {'function': f, 'defined_in': where})
+    # function definitions inside the public headers (C99 view): an inline definition gives no external definition in C99
+    for (fname, static) in header_definitions(ctext):
+        ctx.count(('hdrdef', fname))
+        if not static:
+            ctx.report('header-defines-' + fname, 'the public headers define the non-static function %s in their C99 view: C99 gives an inline definition no external definition, so whether a C client links depends on the optimisation level of the library and of the client' % fname, {'function': fname})
     # ---- independent oracle in Python ----
     for s in structs:
         c = views.get('c', {}).get(s); x = views.get('cpp', {}).get(s)
